@@ -213,6 +213,28 @@ func checkC09(c *Ctx, r *Report) {
 				r.Check(has, "S4", fmt.Sprintf("%s mode of %s", format, row.Slot), c.instrPos(row.At), fmt.Sprintf("mode constant %s must accompany the slot; constants found: %v", wantMode, row.Consts))
 			}
 		}
+		// S7: with exactly this script configured, its binding is executed on
+		// every path to a successful Package return (populated if configured)
+		for k, row := range gotRows {
+			if !want[k] {
+				continue
+			}
+			ev := newEvaluator(c)
+			ev.MaxDepth = 12
+			info := newAObj("info")
+			for _, s := range specScripts {
+				info.Fields[s.Field] = cStr("")
+			}
+			field := strings.TrimPrefix(row.Fields[0], "Info.")
+			info.Fields[field] = cStr("script.sh")
+			info.Fields["Platform"] = cStr("linux")
+			ev.Defaults[c.infoPtrKey()] = info
+			fr := ev.Explore(pk.Package, make([]AV, len(pk.Package.Params)))
+			at := row.At
+			ok := fr.MustReach(func(in ssa.Instruction, _ *Frame) bool { return in == at })
+			r.Check(ok, "S7", fmt.Sprintf("%s slot %s populated whenever configured", format, k), c.instrPos(row.At),
+				"with only this script configured, every path of Package to a success return must execute the slot's binding; a bypass means the script is silently dropped for some combination of the other settings")
+		}
 		// S2 + S3
 		checkScriptConsumers(c, r, pa, pk, format)
 	}
@@ -262,6 +284,34 @@ func checkScriptConsumers(c *Ctx, r *Report, pa *provAnalysis, pk *Packager, for
 	}
 	if consumers == 0 {
 		r.Fail("S2", format+": no script consumer", c.pos(pk.Package.Pos()), "no read of a script file found in the packaging call graph")
+	}
+	// S6: buffers that receive script bytes start empty
+	sa := newSinkAnalysis(c)
+	s6 := 0
+	for _, fn := range sortedFuncs(c, reach) {
+		forEachInstr(fn, func(in ssa.Instruction) {
+			call, ok := in.(*ssa.Call)
+			if !ok {
+				return
+			}
+			o := calleeObj(call)
+			if o == nil || qualifiedName(o) != "io.Copy" {
+				return
+			}
+			if len(scriptAtoms(pa.Of(call.Call.Args[1]))) == 0 {
+				return
+			}
+			s6++
+			okFresh := true
+			why := "the destination buffer is a fresh local allocation"
+			for _, root := range sa.terminalRoots(call.Call.Args[0]) {
+				if fresh, w := freshBufferRoot(root); !fresh {
+					okFresh = false
+					why = "script bytes are appended to a buffer that is " + w + ": the slot can contain another package's script"
+				}
+			}
+			r.Check(okFresh, "S6", fmt.Sprintf("%s: script buffer in %s", format, c.funcKey(fn)), c.instrPos(call), why)
+		})
 	}
 	// S3: the bytes read flow to a write sink through conversions only
 	for i, rd := range reads {
